@@ -106,7 +106,8 @@ def handleText (args : List String) : String :=
 
 /-! ### `sdfc <mode> <which> <cells> <tl> <names> <dump...>`: the annotation with the CONCRETE look-ups of Model/SdfCirc.lean
 over the circuit dump (`harness/circ.py: dump_net` / `dump_names`); tl = `~` | kind `:` pin `:` index (`;` ..)* (percent-encoded)
-= `tlib.pin_index` restricted to the kinds of the circuit.  Answer: `<array | raise> <look-ups>`; look-ups = one item per entry
+= `tlib.pin_index` restricted to the kinds of the circuit.  Answer: `<array | raise> <look-ups> wf:<0|1>` (`wf` = `NNet.wf` of the dump,
+the hypothesis of every look-up specification of Props/C14.lean, second audit item C14); look-ups = one item per entry
 in loop order (`,`-separated, `~` when there is none, `-` when there is no top-level block): `r` raise, `s` warn-and-skip, or the
 line index — for the INTERCONNECT loop of EVERY entry, all-zero ones included (the look-up itself, before the skip test).
 which = `icx` (hypotheses and exits of `C14.interconnect_lookup_exits`): answer `wf:<0|1>,icStruct:<0|1> <exits>`, exits = one item per
@@ -146,13 +147,13 @@ def handleC (args : List String) : String :=
     else if which == "io" then
       let looks := (namedEntries df).map fun p => showLook (ioLook C T p.1 p.2)
       let arr := match iopathsC C T df with | some A => showArr A C.net.lines.size | none => "raise"
-      s!"{arr} {joinOr "," looks}"
+      s!"{arr} {joinOr "," looks} wf:{if C.wf then 1 else 0}"
     else
       let looks := match icEntries df with
         | none => "-"
         | some es => joinOr "," (es.map fun (e : Entry) => if slashOK e.a && slashOK e.b then showLook (icLookE C T e) else "r")
       let arr := match interconnectsC C T df with | some A => showArr A C.net.lines.size | none => "raise"
-      s!"{arr} {looks}"
+      s!"{arr} {looks} wf:{if C.wf then 1 else 0}"
   | _ => "bad-args"
 
 def handle (cmd : String) (args : List String) : Option String :=
